@@ -376,6 +376,8 @@ def run(prog, tier):
     obs.append(_multistart(prog, c7, ms))
 
     obs.extend(dtype_hazard_obligations(prog, "float-arithmetic", ['inference/gp/regression.py']))
+    from .common import call_order_obligations
+    obs.extend(call_order_obligations(prog, "arguments-in-order", ['inference/gp/regression.py']))
 
     obs.append(refresh_obligation(prog, "state-refreshed", "GpRegressor", "set_hyperparameters"))
 
